@@ -67,7 +67,15 @@ def main():
 
     corr = common.CorrResult()
     try:
-        mod.correspond(ctx, corr, model_ok)
+        # whatever happens, the check itself comes back: a global budget of CPU time of this process (the Coq evaluation
+        # runs in child processes and does not count); the per-scenario watchdogs inside fire long before it
+        from harness import epcheck as _E
+        try:
+            with _E.Deadline(900 if tier == 'quick' else 14400):
+                mod.correspond(ctx, corr, model_ok)
+        except _E.Hang as e:
+            corr.oracle_failures.append({'what': 'does-not-terminate: the library kept the check busy beyond its CPU budget (%s)' % e,
+                                         'guarded': 'whole correspondence'})
     except Exception as e:  # a crash of the harness or a shard that cannot be evaluated
         broken.append(('correspondence:%s' % prop, ''.join(traceback.format_exception_only(type(e), e))[-1500:]))
         if os.environ.get('VERIF_DEBUG'):
